@@ -8,6 +8,19 @@ From Verif.SQW Require Import Bytes Format Model Content Check.
 Import ListNotations.
 Local Open Scope string_scope.
 
+(* transport: a list of binary64 patterns that are all +-0 or normal binary32 numbers, sent as binary32 patterns
+   (lib/sqwcorr.py:f32_patterns) and widened here.  A wrong widening cannot hide anything: the widened rows are what the
+   decoded file (pixels and ranges) is compared with. *)
+Definition f32_widen (x : N) : N :=
+  let s := N.shiftr x 31 in
+  let e := N.land (N.shiftr x 23) 255 in
+  let m := N.land x 8388607 in
+  if (e =? 0)%N then N.shiftl s 63 else (N.shiftl s 63 + N.shiftl (e + 896) 52 + N.shiftl m 29)%N.
+Definition f32w (b : bytes) : list N := map f32_widen (u32s b).
+Example f32_widen_one : f32_widen 1065353216 = 4607182418800017408%N /\ f32_widen 3221225472 = 13835058055282163712%N
+                        /\ f32_widen 2147483648 = 9223372036854775808%N /\ f64_to_f32 (f32_widen 1078530011) = 1078530011%N.
+Proof. vm_compute. repeat split. Qed.
+
 Definition conv_ok_id (q : qty) : string :=
   if String.eqb (q_unit q) (q_target q) && list_eqb (q_conv q) (q_vals q) && forallb is_finite64 (q_vals q)
   then match unit_info (q_unit q) with Some _ => "" | None => "oracle-unknown-unit:" ++ q_what q end
